@@ -939,6 +939,10 @@ func (runInfo *runInfoStruct) runCloseStmt(stmt *ast.CloseStmt) {
 	if runInfo.err != nil {
 		return
 	}
+	// a channel kept in a list or map arrives wrapped in an interface value, as for send and receive
+	if runInfo.rv.Kind() == reflect.Interface && !runInfo.rv.IsNil() {
+		runInfo.rv = runInfo.rv.Elem()
+	}
 	if runInfo.rv.Kind() == reflect.Chan {
 		ch := runInfo.rv
 		runInfo.rv = nilValue
